@@ -334,8 +334,13 @@ def _post_base_shutdown(engine, st, ctx, out):
     cl = [("the stdlib base class is shut down exactly once, by the first shutdown() only (repeated shutdown is harmless)", "PC",
            z3.If(first, z3.BoolVal(len(downs) == 1), z3.BoolVal(len(downs) == 0)), ["C11"]),
           ("after shutdown() the flag is set (submit() refuses from now on)", "PC", Val.b(st.get("is_shutdown", hid)), ["C11"]),
-          ("EXEC_INPROGRESS gauge is decremented exactly once, by the first shutdown()", "PC",
-           z3.If(first, z3.BoolVal(len(gauge) == 1 and gauge[0].meth == "dec"), z3.BoolVal(len(gauge) == 0)), ["C20"])]
+          ]
+    from .base import label_key
+    mtype = "sync" if ctx["cls"] == "SyncExecutor" else "threadpool"
+    nf = "_name" if ctx["cls"] == "SyncExecutor" else "_CustomizableThreadPoolExecutor__name"
+    key = label_key(engine, st, mtype, st.get(nf, sid))
+    cl.append(("EXEC_INPROGRESS gauge is decremented exactly once, by the first shutdown(), on the very cell the constructor incremented (type=%r)" % mtype, "PC",
+               z3.If(first, z3.And(z3.BoolVal(len(gauge) == 1 and gauge[0].meth == "dec"), gauge[0].args[0] == key if gauge else False), z3.BoolVal(len(gauge) == 0)), ["C20"]))
     if downs:
         ev = downs[0][1]
         if ctx["cls"] == "SyncExecutor":
@@ -369,8 +374,11 @@ def _post_sync_init(engine, st, ctx, out):
     cl.append(("a new executor is alive: it has its own, fresh shutdown helper whose flag is not set", "PC",
                z3.And(Val.is_ref(h), z3.BoolVal(engine.concrete_id(z3.simplify(h)) is not None), z3.Not(Val.b(st.get("is_shutdown", Val.id(h))))), ["C11"]))
     cl.append(("the executor remembers its name", "PC", st.get("_name", ctx["sid"]) == ctx["name"].t, ["C19"]))
-    cl.append(("EXEC_TOTAL and EXEC_INPROGRESS are incremented exactly once per constructed executor", "PC",
-               z3.BoolVal(len(tot) == 1 and tot[0].meth == "inc" and len(inp) == 1 and inp[0].meth == "inc"), ["C20"]))
+    from .base import label_key
+    key = label_key(engine, st, "sync", ctx["name"].t)
+    cl.append(("EXEC_TOTAL and EXEC_INPROGRESS are incremented exactly once per constructed executor, labelled (type='sync', executor=<its name>)", "PC",
+               z3.And(z3.BoolVal(len(tot) == 1 and tot[0].meth == "inc" and len(inp) == 1 and inp[0].meth == "inc"),
+                      tot[0].args[0] == key if tot else False, inp[0].args[0] == key if inp else False), ["C20"]))
     return cl
 
 
@@ -439,3 +447,133 @@ for v in ("named", "prefix given", "unnamed"):
 
 
 REPLAYS = [("C20", "SyncExecutor.shutdown", "replay/c20_sync_shutdown_gauge.py")]
+
+
+# ---- f. event.get_event: worker wake-up events are registered for interpreter exit by WEAK reference only (C12) ------------------
+def _setup_get_event(engine, st):
+    h = sym_inst(engine, st, "ShutdownAwareEventHandler", "handler")
+    hid = Val.id(h.t)
+    lst = engine.typed(st, st.get("events", hid), ("list", "any"))
+    return [h], {}, {"h": h, "hid": hid, "lid": Val.id(lst.t), "n0": st.get("$len", Val.id(lst.t)), "at0": st.get("$at", Val.id(lst.t)),
+                     "reg0": st.get("atexit_registered", hid)}
+
+
+def _post_get_event(engine, st, ctx, out):
+    hid = ctx["hid"]
+    apps = [e for e in st.trace if e.kind == "mutate" and e.meth == "append"]
+    regs = [e for e in st.trace if e.kind in ("atexit-register",) or (e.kind == "call" and "atexit" in str(e.meth or ""))]
+    wrefs = [e for e in st.trace if e.kind == "weakref-callback"]
+    cl = [("get_event does not raise", "EX", not isinstance(out, Raise), ["C12"])]
+    if isinstance(out, Raise):
+        return cl
+    ok = len(apps) == 1 and isinstance(out, Z) and out.ty == "event"
+    w = apps[0].args[0] if ok else None
+    cl.append(("a fresh, cleared event is returned and exactly one reference to it is recorded - a WEAK one (the handler never keeps an executor's event alive)", "PC",
+               z3.And(z3.BoolVal(ok and len(wrefs) == 1), cls_of(Val.id(w)) == engine.tag("weakref") if ok else False,
+                      st.get("$referent", Val.id(w)) == out.t if ok else False, z3.Not(st.get("$flag", Val.id(out.t))) if ok else False,
+                      apps[0].recv == Val.id(st.get("events", hid)) if ok else False, z3.BoolVal(ok and any(h_[3] == "lock" for h_ in apps[0].held))), ["C12"]))
+    cl.append(("the interpreter-exit hook is registered (once: the flag is set with it)", "PC", Val.b(st.get("atexit_registered", hid)), ["C12", "C11"]))
+    return cl
+
+
+UNITS.append(Unit("ShutdownAwareEventHandler.get_event", "event.ShutdownAwareEventHandler.get_event", ["C12", "C11"], _setup_get_event, _post_get_event,
+                  cfg=lambda: _cfg_event(), self_cls="ShutdownAwareEventHandler"))
+
+
+# ---- g. constructors of the executors without a worker thread (C11 C19 C20) ---------------------------------------------------
+SIMPLE_CTORS = {
+    "MapExecutor": ("map.MapExecutor.__init__", "map"), "FlatMapExecutor": ("map.MapExecutor.__init__", "flat_map"),
+    "CancelOnShutdownExecutor": ("cancel_on_shutdown.CancelOnShutdownExecutor.__init__", "cancel_on_shutdown"),
+    "AsyncioExecutor": ("asyncio.AsyncioExecutor.__init__", "asyncio"),
+}
+
+
+def _cfg_simple_ctor():
+    cfg = make_cfg(concurrent=False)
+    from pyvc.vals import Builtin
+    for m in ("cancel_on_shutdown", "asyncio", "map"):
+        cfg.global_types[("more_executors._impl." + m, "LogWrapper")] = Builtin("getLogger")
+    return cfg
+
+
+def _setup_simple_ctor(cls_name):
+    def setup(engine, st):
+        oid = st.alloc(cls_name)
+        st.assume(cls_of(z3.IntVal(oid)) == engine.tag(cls_name))
+        me = Z(ref(oid), INST(cls_name))
+        d = sym_val(engine, st, "executor", "delegate")
+        name = sym_val(engine, st, "any", "name")
+        kw = {"name": name}
+        ctx = {"me": me, "sid": z3.IntVal(oid), "d": d, "name": name, "cls": cls_name}
+        if cls_name in ("MapExecutor", "FlatMapExecutor"):
+            kw["fn"] = ctx["fn"] = sym_val(engine, st, OPT("callable"), "fn")
+            kw["error_fn"] = ctx["error_fn"] = sym_val(engine, st, OPT("callable"), "error_fn")
+        if cls_name == "AsyncioExecutor":
+            kw["loop"] = ctx["loop"] = sym_val(engine, st, "any", "loop")
+        return [me, d], kw, ctx
+    return setup
+
+
+def _post_simple_ctor(engine, st, ctx, out):
+    sid, cls_name = ctx["sid"], ctx["cls"]
+    label = SIMPLE_CTORS[cls_name][1]
+    tot = [e for e in st.trace if e.kind == "metric" and e.callee == "EXEC_TOTAL"]
+    inp = [e for e in st.trace if e.kind == "metric" and e.callee == "EXEC_INPROGRESS"]
+    cl = [("the constructor does not raise", "EX", not isinstance(out, Raise), ["C11"])]
+    if isinstance(out, Raise):
+        return cl
+    h = st.get("_shutdown", sid)
+    cl.append(("a new executor is alive (fresh shutdown helper, flag not set), wraps the given delegate and remembers its name", "PC",
+               z3.And(Val.is_ref(h), z3.BoolVal(engine.concrete_id(z3.simplify(h)) is not None), z3.Not(Val.b(st.get("is_shutdown", Val.id(h)))),
+                      st.get(engine.heap_key(cls_name, "_delegate"), sid) == ctx["d"].t, st.get("_name", sid) == ctx["name"].t), ["C11", "C19", "C01"]))
+    from .base import label_key
+    key = label_key(engine, st, label, ctx["name"].t)
+    cl.append(("EXEC_TOTAL and EXEC_INPROGRESS are incremented exactly once, labelled (type=%r, executor=<its name>)" % label, "PC",
+               z3.And(z3.BoolVal(len(tot) == 1 and tot[0].meth == "inc" and len(inp) == 1 and inp[0].meth == "inc"),
+                      tot[0].args[0] == key if tot else False, inp[0].args[0] == key if inp else False), ["C20"]))
+    if "fn" in ctx:
+        cl.append(("the layer keeps exactly the caller's fn and error_fn", "PC",
+                   z3.And(st.get("_fn", sid) == engine.to_val(st, ctx["fn"]), st.get(engine.heap_key(cls_name, "_error_fn"), sid) == engine.to_val(st, ctx["error_fn"])), ["C13", "C01"]))
+    if cls_name == "CancelOnShutdownExecutor":
+        fs = st.get("_futures", sid)
+        cl.append(("nothing is tracked yet", "PC", st.get("$len", Val.id(fs)) == 0, ["C10"]))
+    return cl
+
+
+for _c in SIMPLE_CTORS:
+    UNITS.append(Unit("%s.__init__" % _c, SIMPLE_CTORS[_c][0], ["C11", "C19", "C20", "C01", "C13", "C10"], _setup_simple_ctor(_c), _post_simple_ctor,
+                      cfg=_cfg_simple_ctor, self_cls=_c))
+
+
+# ---- h. AsyncioExecutor.submit / submit_with_loop (C01 C11) -----------------------------------------------------------------
+def _setup_aio(engine, st):
+    ex = sym_inst(engine, st, "AsyncioExecutor", "executor")
+    sid = Val.id(ex.t)
+    a = ArgPack(fresh("args", Val), "args")
+    k = ArgPack(fresh("kwargs", Val), "kwargs")
+    h = engine.typed(st, st.get("_shutdown", sid), INST("ShutdownHelper"))
+    engine.cfg.helpers = [Val.id(h.t)]
+    st.assume(Val.is_boolv(st.get("is_shutdown", Val.id(h.t))))
+    loop = sym_val(engine, st, "any", "loop")
+    fn = sym_val(engine, st, "callable", "fn")
+    st.assume(Val.is_none(st.get("$code", Val.id(fn.t))))
+    return [ex, loop, fn], {}, {"star": a, "starkw": k, "sid": sid, "ex": ex, "a": a, "k": k, "hid": Val.id(h.t), "fn": fn, "loop": loop}
+
+
+def _post_aio(engine, st, ctx, out):
+    subs = [(i, e) for i, e in enumerate(st.trace) if e.kind == "call" and e.meth == "submit"]
+    wraps = [e for e in st.trace if e.kind == "wrap_future"]
+    cl, acq = _refusal_clauses(engine, st, ctx, out, subs)
+    cl.append(("at most one submission to the delegate per submit()", "PC", z3.BoolVal(len(subs) <= 1), ["C01"]))
+    if subs:
+        ev = subs[0][1]
+        cl.append(("the delegate receives the callable and its arguments unchanged", "PC",
+                   z3.And(z3.BoolVal(len(ev.args) == 1), ev.args[0] == ctx["fn"].t if ev.args else False, engine.to_val(st, ev.star) == ctx["a"].t if ev.star is not None else False,
+                          z3.BoolVal(_same_kw(engine, st, ev.starkw, ctx["k"])), ev.recv == Val.id(st.get(engine.heap_key("AsyncioExecutor", "_delegate"), ctx["sid"]))), ["C01"]))
+        if not isinstance(out, Raise):
+            cl.append(("what is returned is asyncio's wrapper of exactly the delegate's future", "PC",
+                       z3.And(z3.BoolVal(len(wraps) == 1), wraps[0].args[0] == ev.ret if wraps else False), ["C01"]))
+    return cl
+
+
+UNITS.append(Unit("AsyncioExecutor.submit_with_loop", "asyncio.AsyncioExecutor.submit_with_loop", ["C01", "C11"], _setup_aio, _post_aio, cfg=_cfg_sub, self_cls="AsyncioExecutor"))
